@@ -8,45 +8,74 @@ pub struct Decoder<R> {
     // Only used for UTF-16/invalid UTF-8 encoded data
     decode_buf: String,
     encoding: Encoding,
+    // Bytes that were consumed while looking for the BOM but do not belong to it
+    head: Vec<u8>,
 }
 
 impl<R: BufRead> Decoder<R> {
     pub fn new(mut inner: R) -> IoResult<Self> {
+        let mut head = Vec::new();
+
         Ok(Self {
-            encoding: Self::read_bom(&mut inner)?,
+            encoding: Self::read_bom(&mut inner, &mut head)?,
             read_buf: Vec::new(),
             decode_buf: String::new(),
             inner,
+            head,
         })
     }
 
-    fn read_bom(reader: &mut R) -> IoResult<Encoding> {
-        let buf = loop {
+    fn read_bom(reader: &mut R, head: &mut Vec<u8>) -> IoResult<Encoding> {
+        loop {
             let available = match reader.fill_buf() {
                 Ok(n) => n,
                 Err(ref err) if err.kind() == ErrorKind::Interrupted => continue,
                 Err(err) => return Err(err),
             };
 
-            let len = available.len();
+            if head.is_empty() && available.len() >= 3 {
+                let (encoding, consumed) = Encoding::from_bom(available);
+                reader.consume(consumed);
 
-            if len >= 3 || len == 0 {
-                break available;
+                return Ok(encoding);
             }
 
+            // The reader hands out less than three bytes at once so they need
+            // to be collected across multiple reads.
+            let len = available.len().min(3 - head.len());
+            head.extend_from_slice(&available[..len]);
             reader.consume(len);
-        };
 
-        let (encoding, consumed) = Encoding::from_bom(buf);
-        reader.consume(consumed);
+            if len == 0 || head.len() == 3 {
+                let (encoding, consumed) = Encoding::from_bom(head);
+                head.drain(..consumed);
 
-        Ok(encoding)
+                return Ok(encoding);
+            }
+        }
+    }
+
+    /// Reads until the next `\n` byte, starting with leftovers of the BOM
+    /// check. Returns the amount of read bytes.
+    fn read_until_newline(&mut self) -> IoResult<usize> {
+        if let Some(idx) = self.head.iter().position(|&byte| byte == b'\n') {
+            self.read_buf.extend(self.head.drain(..=idx));
+
+            return Ok(idx + 1);
+        }
+
+        let head_len = self.head.len();
+        self.read_buf.append(&mut self.head);
+
+        self.inner
+            .read_until(b'\n', &mut self.read_buf)
+            .map(|n| n + head_len)
     }
 
     pub fn read_line(&mut self) -> IoResult<Option<&str>> {
         self.read_buf.clear();
 
-        if self.inner.read_until(b'\n', &mut self.read_buf)? == 0 {
+        if self.read_until_newline()? == 0 {
             return Ok(None);
         }
 
@@ -63,6 +92,10 @@ impl<R: BufRead> Decoder<R> {
 
     /// Reads a single byte unless the end is reached.
     fn read_byte(&mut self) -> IoResult<Option<u8>> {
+        if !self.head.is_empty() {
+            return Ok(Some(self.head.remove(0)));
+        }
+
         loop {
             return match self.inner.fill_buf() {
                 Ok([byte, ..]) => {
